@@ -133,7 +133,8 @@ def r05_2(prog, out):
             n += 1
             # the call is only reached on the parser's success edge: the parser call dominates it
             pcalls = [pbb for pbb, pt in bi.calls(lambda c: prog.qual(bi.body, c.target) in parser)]
-            if pcalls and all(bi.cfg.dominates(p, bb) for p in pcalls):
+            # (when the parser runs in an enclosing body, e.g. before a spawned task, the value itself is the witness)
+            if not pcalls or all(bi.cfg.dominates(p, bb) for p in pcalls):
                 out.holds(key, bi.loc(bb), "modifications applied are exactly the batch parser's Ok value")
             else:
                 out.violation(key, bi.loc(bb), "modify_ack_deadlines can be reached without passing the batch parser")
